@@ -5,6 +5,17 @@ import os
 from translate import TranslateError
 
 
+import contextlib as _ctxlib
+
+
+@_ctxlib.contextmanager
+def warnings_off():
+    import warnings
+    with warnings.catch_warnings():
+        warnings.simplefilter('ignore')
+        yield
+
+
 def lean_str(s):
     out = '"'
     for ch in s:
@@ -1022,6 +1033,13 @@ def gen_cli_options(root, report):
                     r_ = n.args[0]
                     if isinstance(r_, ast.Name) and len(assigned.get(r_.id, [])) == 1:
                         r_ = assigned[r_.id][0]
+                    # ... and a call without arguments of a function of the same file that does nothing but return an expression
+                    if isinstance(r_, ast.Call) and isinstance(r_.func, ast.Name) and not r_.args and not r_.keywords:
+                        hf = next((f_ for f_ in stree.body if isinstance(f_, ast.FunctionDef) and f_.name == r_.func.id), None)
+                        if hf is not None:
+                            hb = [st for st in hf.body if not (isinstance(st, ast.Expr) and isinstance(st.value, ast.Constant))]
+                            if len(hb) == 1 and isinstance(hb[0], ast.Return) and hb[0].value is not None:
+                                r_ = hb[0].value
                     roots.append((script, ast.unparse(r_).replace(' ', '')))
     report['rules_dir_roots'] = roots
     roots_lit = '[' + ', '.join('(' + lean_str(a) + ', ' + lean_str(b) + ')' for a, b in roots) + ']'
@@ -1121,6 +1139,103 @@ def uses : List (String × String × String × String) :=
 end Pcfg.Generated.ReaderUses
 '''
 
+def gen_process_state(root, report):
+    """state that outlives a call and belongs to no object a caller holds: module-level and class-level mutable containers, cache
+    decorators and calls (`functools.lru_cache` / `cache`), mutable or computed default arguments, `global` statements - in the four
+    library packages.  The models are pure functions of the objects handed in; this table is what that abstraction leaves out"""
+    found = []
+    mut_nodes = ('List', 'Dict', 'Set', 'ListComp', 'DictComp', 'SetComp')
+    mut_calls = {'list', 'dict', 'set', 'Counter', 'defaultdict', 'OrderedDict', 'deque', 'collections.Counter', 'collections.defaultdict',
+                 'collections.OrderedDict', 'collections.deque', 'bytearray'}
+
+    def mutable(v):
+        if v is None:
+            return None
+        if type(v).__name__ in mut_nodes:
+            return type(v).__name__.lower()
+        if isinstance(v, ast.Call) and ast.unparse(v.func) in mut_calls:
+            return ast.unparse(v.func) + '()'
+        return None
+    for pkg in ('lib_guesser', 'lib_trainer', 'lib_scorer', 'lib_princeling'):
+        for dp, dn, fns in sorted(os.walk(os.path.join(root, pkg))):
+            if 'future_research' in dp or '__pycache__' in dp:
+                continue
+            for fn in sorted(fns):
+                if not fn.endswith('.py') or fn.startswith('test_'):
+                    continue
+                full = os.path.join(dp, fn)
+                rel = os.path.relpath(full, root).replace(os.sep, '/')
+                with warnings_off():
+                    tree = ast.parse(open(full, encoding='utf-8').read())
+
+                # a container with content that nothing in its module ever changes is a constant, not state
+                mutators = {'append', 'add', 'update', 'setdefault', 'pop', 'popitem', 'clear', 'extend', 'insert', 'remove', 'discard', 'sort',
+                            'reverse', 'appendleft', 'move_to_end', 'subtract'}
+
+                def changed(name):
+                    def is_it(e):
+                        return (isinstance(e, ast.Name) and e.id == name) or (isinstance(e, ast.Attribute) and e.attr == name)
+                    for n_ in ast.walk(tree):
+                        if isinstance(n_, (ast.Assign, ast.AugAssign, ast.Delete)):
+                            tgs = n_.targets if isinstance(n_, (ast.Assign, ast.Delete)) else [n_.target]
+                            for t_ in tgs:
+                                if isinstance(t_, ast.Subscript) and is_it(t_.value):
+                                    return True
+                                if isinstance(n_, ast.AugAssign) and is_it(t_):
+                                    return True
+                        if isinstance(n_, ast.Call) and isinstance(n_.func, ast.Attribute) and n_.func.attr in mutators and is_it(n_.func.value):
+                            return True
+                        if isinstance(n_, ast.Return) and n_.value is not None and is_it(n_.value):
+                            return True      # handed out: whoever gets it can change it
+                    return False
+
+                def empty(v):
+                    return (isinstance(v, (ast.List, ast.Set)) and not v.elts) or (isinstance(v, ast.Dict) and not v.keys) or \
+                        (isinstance(v, ast.Call) and not v.args and not v.keywords)
+
+                def scan(body, scope):
+                    for st in body:
+                        if isinstance(st, (ast.Assign, ast.AnnAssign)):
+                            k = mutable(st.value)
+                            tg = st.targets[0] if isinstance(st, ast.Assign) else st.target
+                            nm = tg.id if isinstance(tg, ast.Name) else None
+                            if k and (nm is None or empty(st.value) or changed(nm)):
+                                found.append((rel, scope, ast.unparse(tg), k))
+                        elif isinstance(st, ast.ClassDef):
+                            scan(st.body, 'class ' + st.name)
+                        elif isinstance(st, (ast.If, ast.Try)):
+                            scan(getattr(st, 'body', []), scope)
+                            scan(getattr(st, 'orelse', []), scope)
+                scan(tree.body, 'module')
+                for n in ast.walk(tree):
+                    if isinstance(n, (ast.FunctionDef, ast.AsyncFunctionDef)):
+                        for d in n.decorator_list:
+                            if 'cache' in ast.unparse(d):
+                                found.append((rel, 'def ' + n.name, n.name, 'decorator ' + ast.unparse(d).split('(')[0]))
+                        pos = n.args.args[len(n.args.args) - len(n.args.defaults):]
+                        for a, dv in list(zip(pos, n.args.defaults)) + [(a, dv) for a, dv in zip(n.args.kwonlyargs, n.args.kw_defaults) if dv is not None]:
+                            k = mutable(dv)
+                            if k or isinstance(dv, ast.Call):
+                                found.append((rel, 'def ' + n.name, a.arg, 'default ' + (k or ast.unparse(dv)[:40])))
+                    if isinstance(n, ast.Global):
+                        found.append((rel, 'global', ','.join(n.names), 'global'))
+                    if isinstance(n, ast.Call) and ast.unparse(n.func).split('.')[-1] in ('lru_cache', 'cache', 'cached_property') \
+                            and not any(isinstance(p_, (ast.FunctionDef, ast.AsyncFunctionDef)) and n in p_.decorator_list for p_ in ast.walk(tree)):
+                        found.append((rel, 'call', ast.unparse(n.func), 'cache call'))
+    found = sorted(set(found))
+    report['process_wide_state'] = found
+    body = ', '.join('(' + ', '.join(lean_str(x) for x in t4) + ')' for t4 in found)
+    return f'''/-! GENERATED by harness/translate.py (tables.py) from lib_guesser, lib_trainer, lib_scorer, lib_princeling -- do not edit.
+State that outlives a call and belongs to no object a caller holds: (file, scope, name, kind) for every module-level or class-level
+mutable container, every cache decorator or cache call, every mutable or computed default argument, every `global` statement. -/
+namespace Pcfg.Generated.ProcessState
+
+def processWideState : List (String × String × String × String) := [{body}]
+
+end Pcfg.Generated.ProcessState
+'''
+
+
 REF_DIR = os.path.join(os.path.dirname(os.path.abspath(__file__)), 'skeletons', 'ref_generated')
 
 
@@ -1134,7 +1249,7 @@ def extra_modules(root, report, record=False):
     for fname, gen in (('PrintSites.lean', gen_print_sites), ('CheckValid.lean', gen_check_valid), ('Session.lean', gen_session_facts),
                        ('Tables.lean', gen_detector_tables), ('OmenFacts.lean', gen_omen_facts),
                        ('RuleDir.lean', gen_ruledir_facts), ('EditFs.lean', gen_edit_fs),
-                       ('WriterLoops.lean', gen_writer_loops), ('CliOptions.lean', gen_cli_options), ('ReaderUses.lean', gen_reader_uses)):
+                       ('WriterLoops.lean', gen_writer_loops), ('CliOptions.lean', gen_cli_options), ('ReaderUses.lean', gen_reader_uses), ('ProcessState.lean', gen_process_state)):
         ref = os.path.join(REF_DIR, fname)
         try:
             text = gen(root, report)
